@@ -75,6 +75,7 @@ CLASSES = {
     'read_k': b'read m:k', 'change_k': b'change m:k 1', 'read_broken': b'read broken:p',
     'change_broken': b'change broken:p 1', 'do_broken': b'do broken:cmd', 'read_m': b'read m',
     'change_m': b'change m 5', 'do_stop': b'do m:stop', 'change_t': b'change m:t "\xc3\xa9\xe2\x82\xac \\u00fc"',
+    'long_valid_3k': b'change m:s "' + b'b' * 3000 + b'"',
     'read_t': b'read m:t', 'surrogate_t': b'change m:t "\\ud800 \\udc00"',
 }
 CORE = ['read_p', 'change_p3', 'change_p7', 'activate', 'deactivate_m', 'empty', 'bad_json', 'lead_badjson',
@@ -515,8 +516,13 @@ def answers(events):
     return [o['dig'] for _, o in pairs(events)]
 
 
-def segmentations(stream, rnd):
-    """3 segmentations: everything at once; every line in two pieces; seeded random cuts"""
+READ = 1024          # MESSAGE_READ_SIZE of frappy/protocol/interface/tcp.py (cross-checked in run())
+
+
+def segmentations(stream, rnd, sized=True):
+    """everything at once; every line in two pieces with a pause (receive time-out) inside the first line;
+    seeded random cuts; for streams longer than one read two more, relative to the read size, every piece
+    followed by a pause longer than the socket time-out: pieces of exactly READ bytes, and READ-1 / READ+1 / 2*READ"""
     yield [stream]
     cuts = set()
     start = 0
@@ -525,7 +531,8 @@ def segmentations(stream, rnd):
             cuts.add(i + 1)
             cuts.add((start + i + 1) // 2)
             start = i + 1
-    yield _cut(stream, cuts)
+    segs = _cut(stream, cuts)
+    yield segs[:1] + [None] + segs[1:]
     n = len(stream)
     k = rnd.randint(1, min(8, max(1, n)))
     cuts = {rnd.randint(1, max(1, n)) for _ in range(k)}
@@ -536,6 +543,14 @@ def segmentations(stream, rnd):
     if rnd.random() < 0.3 and segs:
         segs.insert(rnd.randint(0, len(segs)), None)     # a receive time-out in between
     yield segs
+    if n >= READ and sized:
+        for sizes in ([READ], [READ - 1, READ + 1, 2 * READ, READ]):
+            segs, p, i = [], 0, 0
+            while p < n:
+                segs += [stream[p:p + sizes[i % len(sizes)]], None]
+                p += sizes[i % len(sizes)]
+                i += 1
+            yield segs
 
 
 def _cut(stream, cuts):
@@ -551,14 +566,25 @@ def _replay_framing(beh):
         if gname == 'g2' and not ('N' in beh['stream'] and ('x' in beh['stream'] or 'y' in beh['stream'])):
             continue       # the second concretisation differs only in the payload bytes of complete lines
         conc = lambda s: b''.join(g[c] for c in s)
-        segs = [conc(st['chunk']) for st in beh['steps']]
-        w, s1 = run_stream(segs, other='idle')
+        segs = [None if st['act'] == 'pause' else conc(st['chunk']) for st in beh['steps']]    # pause: time-out
+        rs = beh.get('readsize')
+        if rs:          # the enumeration is relative to the read size: scale MESSAGE_READ_SIZE down to it
+            _mod_class()
+            import frappy.protocol.interface.tcp as tcpmod
+            saved, tcpmod.MESSAGE_READ_SIZE = tcpmod.MESSAGE_READ_SIZE, rs
+        try:
+            w, s1 = run_stream(segs, other='idle')
+        finally:
+            if rs:
+                tcpmod.MESSAGE_READ_SIZE = saved
         res['traces'].append(w.events)
         res['raws'].append(w.raw)
         if res['bad']:
             continue
         # state after chunk i is what the handler holds when it asks for chunk i+1
         for i, st in enumerate(beh['steps']):
+            if rs and st['act'] == 'recv' and len(st['chunk']) == rs and i + 1 < len(beh['steps']):
+                continue      # a full read may legitimately be followed by another one before the buffer is scanned
             exp = {'buf': conc(st['exp']['buf']).decode('latin-1'), 'nlines': len(st['exp']['lines'])}
             got = {'buf': s1.bufs[i + 1].decode('latin-1') if i + 1 < len(s1.bufs) else '<handler gone>',
                    'nlines': s1.nreplies[i + 1] if i + 1 < len(s1.nreplies) else -1}
@@ -582,13 +608,44 @@ def _replay_framing(beh):
 
 # ---------------------------------------------------------------- spec -> code: line class sequences
 OTHERS = ['idle', 'active', 'broken']
+BURST = (b'ping ' + b'a' * 250 + b'\n') * 4 + (b'ping ' + b'b' * 255 + b'\n') * 4      # 1024 + 1044 bytes
+
+# byte streams whose length / line ends are placed relative to the read size (each under all segmentations)
+STREAMS = {
+    'short_requests': b'ping tok\n' * 230,                                     # 2070 bytes of short lines
+    'line_1023': b'ping ' + b'c' * 1017 + b'\nread m:p\n',                     # NL is byte 1023
+    'line_1024': b'ping ' + b'c' * 1018 + b'\nread m:p\n',                     # NL is byte 1024
+    'line_1025': b'ping ' + b'c' * 1019 + b'\nread m:p\n',
+    'two_reads': (b'change m:s "' + b'd' * 1010 + b'"\n') * 2 + b'read m:s\n',  # 2 x 1024, then a short line
+    'line_3k': b'change m:s "' + b'e' * 3059 + b'"\nread m:s\n',                # 3072 + 1 + ...
+    'no_final_nl': b'ping ' + b'f' * 1018 + b'\nread m:p',                      # the tail is no request
+}
+
+
+def _replay_stream(item):
+    name, seed = item
+    rnd = random.Random(seed)
+    stream, ref = STREAMS[name], None
+    res = {'traces': [], 'raws': [], 'segs': []}
+    for k, segs in enumerate(segmentations(stream, rnd)):
+        w, _ = run_stream(segs, other=OTHERS[(seed + k) % 3], ctor=k % 2 == 1, addr=seed + k)
+        if ref is None:
+            ref = answers(w.events)
+        else:
+            w.events.append({'ev': 'same', 'ref': ref})
+            w.raw.append('same')
+        res['traces'].append(w.events)
+        res['raws'].append(w.raw)
+        res['segs'].append([None if s is None else len(s) for s in segs])
+    return res
 
 
 def _replay_classes(item):
     seq, seed = item
     rnd = random.Random(seed)
     stream = b''.join(CLASSES[c] + b'\n' for c in seq)
-    hws = ['fin', 'nan', 'inf', 'err', 'exc'] if 'read_hw' in seq or ('activate' in seq and len(seq) <= 2) else ['fin']
+    hws = ['fin', 'nan', 'inf', 'err', 'exc'] if 'read_hw' in seq or ('activate' in seq and (len(seq) == 1 or len(seq) == 2 and seed % 4 == 0)) \
+        else ['fin']
     res = {'traces': [], 'raws': [], 'segs': [], 'bad': None}
     detailed = seed % 5 == 0
 
@@ -599,7 +656,8 @@ def _replay_classes(item):
 
     for hw in hws:
         ref = None
-        for k, segs in enumerate(segmentations(stream, rnd)):
+        sized = len(stream) < 20000 and (len(seq) == 1 or seed % 6 == 0)     # (the 250 kB lines: 3 segmentations)
+        for k, segs in enumerate(segmentations(stream, rnd, sized)):
             # the other dimensions of a connection rotate with the segmentation: what the second connection
             # is, how the handler is driven (constructor like socketserver / step by step), the peer's address
             w, s1 = run_stream(segs, hw=hw, other=OTHERS[(seed + k) % 3], detailed=detailed, ctor=k == 1, addr=seed + k)
@@ -617,7 +675,22 @@ def _replay_classes(item):
                 w.events.append({'ev': 'same', 'ref': ref})
                 w.raw.append('same')
             keep(w, {'hw': hw, 'seg': [None if s is None else len(s) for s in segs]})
-    if len(seq) == 1 or seed % 4 == 0:
+    if len(stream) < 20000 and (len(seq) == 1 or seed % 48 == 0):
+        # the same lines behind a pipelined burst: one read's worth of requests ending exactly at a line end,
+        # then another one ending inside a line; all 5 segmentations must give the same answers
+        stream2, ref = BURST + stream, None
+        for k, segs in enumerate(segmentations(stream2, rnd)):
+            w, s1 = run_stream(segs, other=OTHERS[(seed + k) % 3], ctor=k % 2 == 1, addr=seed + k)
+            if s1.replies != len(seq) + 8 and not res['bad']:
+                res['bad'] = {'what': 'reply count', 'expected': len(seq) + 8, 'observed': s1.replies, 'seg': k,
+                              'hw': 'burst'}
+            if ref is None:
+                ref = answers(w.events)
+            else:
+                w.events.append({'ev': 'same', 'ref': ref})
+                w.raw.append('same')
+            keep(w, {'hw': 'fin', 'burst': True, 'seg': [None if s is None else len(s) for s in segs]})
+    if len(seq) == 1 or seed % 8 == 0:
         # the peer leaves: reset while we read / our sends fail (broken pipe, time-out on a full buffer, ...)
         cut = rnd.randint(0, len(stream))
         w, _ = run_stream([stream[:cut], RESET], ctor=bool(seed & 8), addr=seed, other=OTHERS[seed % 3])
@@ -678,7 +751,8 @@ def _fuzz(seed):
     kw = {'hw': rnd.choice(['fin', 'fin', 'fin', 'nan', 'inf', 'err', 'exc']), 'other': rnd.choice(OTHERS),
           'detailed': rnd.random() < 0.2,          # Interface option detailed_errors
           'ctor': rnd.random() < 0.5, 'addr': rnd.randrange(len(ADDRS))}
-    segs = list(segmentations(stream, rnd))[rnd.choice([0, 1, 2, 2, 2])]
+    segs = list(segmentations(stream, rnd))
+    segs = segs[rnd.choice([0, 1, 2, 2, 2] + list(range(3, len(segs))) * 3)]
     leave = rnd.random()
     if leave < 0.1:
         segs = segs[:rnd.randint(0, len(segs))] + [RESET]
@@ -836,7 +910,7 @@ def _two_threads(seed):
 
 
 # ---------------------------------------------------------------- a real TCPServer on the loopback interface
-def _real_tcp(seed):
+def _real_tcp(seed, pause=False):
     """the whole interface as the server runs it: TCPServer (socketserver.ThreadingTCPServer, IPv4 or dual
     stack) accepts a real connection and constructs the handler in its own thread; a real client sends the
     stream in random pieces, reads until every owed reply has arrived, and closes"""
@@ -847,6 +921,10 @@ def _real_tcp(seed):
     seq = [rnd.choice(names) for _ in range(rnd.randint(2, 6))]
     stream = b''.join(CLASSES[c] + b'\n' for c in seq)
     reqs = [a_in(CLASSES[c]) for c in seq]
+    pieces = _cut(stream, {rnd.randint(1, len(stream)) for _ in range(rnd.randint(0, 6))})
+    if pause:       # exactly one read's worth of complete requests, then silence longer than the socket time-out
+        reqs = [a_in(x) for x in BURST[:READ].split(b'\n')[:-1]] + reqs
+        pieces = [BURST[:READ], 1.3] + pieces
     from frappy.protocol.interface.tcp import TCPServer
     ipv6 = bool(seed % 2)
     log = Log('tcp')
@@ -857,8 +935,11 @@ def _real_tcp(seed):
     reason = 'stuck'
     try:
         c = socket.create_connection(('127.0.0.1', server.server_address[1]), timeout=10)
-        for seg in _cut(stream, {rnd.randint(1, len(stream)) for _ in range(rnd.randint(0, 6))}):
-            c.sendall(seg)
+        for seg in pieces:
+            if isinstance(seg, float):
+                time.sleep(seg)
+            else:
+                c.sendall(seg)
         c.settimeout(10)
         buf, pend, done = b'', list(reqs), 0
         while pend:
@@ -892,7 +973,7 @@ def _real_tcp(seed):
         th.join(5)
     events.append({'ev': 'handler_end', 'reason': reason})
     raw.append([reason] + log.errors[:1])
-    return {'trace': events, 'raw': raw, 'seq': seq, 'seed': seed, 'ipv6': ipv6}
+    return {'trace': events, 'raw': raw, 'seq': seq, 'seed': seed, 'ipv6': ipv6, 'pause': pause}
 
 
 # ---------------------------------------------------------------- codec inverse law
@@ -1070,11 +1151,16 @@ def run(chk):
     chk.add_tlc(r)
     chk.sample({'framing': {'stream': behs[len(behs) // 2]['stream'],
                             'cut': [len(s['chunk']) for s in behs[len(behs) // 2]['steps']]}})
+    r, behs2 = emit_behaviours('Gen_Wire', 'Gen_Wire_framing_pause_%s.cfg' % chk.tier, maximal_only=False, timeout=900)
+    chk.add_tlc(r)
+    for b in behs2:
+        b['readsize'] = 2          # == ReadSize of Gen_Wire_framing_pause_*.cfg
+    behs += behs2
     for part in batches(behs):
         traces, info = [], []
         for beh, x in zip(part, pool_map(_replay_framing, part)):
-            cut = [len(s['chunk']) for s in beh['steps']]
-            chk.case(('F', beh['stream'], tuple(cut)), 'N' in beh['stream'])
+            cut = [len(s['chunk']) or 'pause' for s in beh['steps']] + ([{'readsize': beh['readsize']}] if 'readsize' in beh else [])
+            chk.case(('F', beh['stream'], tuple(map(str, cut))), 'N' in beh['stream'])
             if x['bad']:
                 chk.impl_traces += 1
                 chk.violation({'module': 'Wire', 'layer': 'framing', 'what': x['bad']['what']},
@@ -1122,6 +1208,17 @@ def run(chk):
         chk.sample({'classes': part[len(part) // 2][0], 'trace': traces[len(traces) // 2][:6]})
         groups.append(('classes', traces, lambda i, info=info: info[i]))
         flush(30000)
+    import frappy.protocol.interface.tcp as tcpmod
+    if tcpmod.MESSAGE_READ_SIZE != READ:
+        raise MachineryError(f'MESSAGE_READ_SIZE is {tcpmod.MESSAGE_READ_SIZE}: adapt READ and the STREAMS of c07.py')
+    items = [(name, chk.seed * 101 + i) for i, name in enumerate(sorted(STREAMS))]
+    res = pool_map(_replay_stream, items)
+    traces = [tr for x in res for tr in x['traces']]
+    info = [{'stream': name, 'seed': seed, 'seg': sg, 'raw': raw}
+            for (name, seed), x in zip(items, res) for sg, raw in zip(x['segs'], x['raws'])]
+    for it in items:
+        chk.case(('S',) + it, True)
+    groups.append(('streams', traces, lambda i, info=info: info[i]))
     stage('classes')
 
     # 4 code -> spec: fuzz
@@ -1147,10 +1244,10 @@ def run(chk):
                    lambda i, res=res: {k: res[i][k] for k in ('raw', 'turns', 'seed')}))
 
     # 5b real sockets: TCPServer + socketserver threads + a real client (wall-clock, generous time-outs)
-    res = [_real_tcp(chk.seed * 53 + i) for i in range(8 if quick else 80)]
+    res = [_real_tcp(chk.seed * 53 + i, pause=i % 16 == 3) for i in range(8 if quick else 80)]
     for x in res:
         chk.case(('R', x['seed']), True)
-    groups.append(('tcp', [x['trace'] for x in res], lambda i, res=res: {k: res[i][k] for k in ('raw', 'seq', 'seed', 'ipv6')}))
+    groups.append(('tcp', [x['trace'] for x in res], lambda i, res=res: {k: res[i][k] for k in ('raw', 'seq', 'seed', 'ipv6', 'pause')}))
 
     # 6 codec
     r, behs = emit_behaviours('Gen_Wire', 'Gen_Wire_codec.cfg', maximal_only=False, timeout=300)
@@ -1203,11 +1300,21 @@ def replay(chk, rep):
     if kind == 'framing':
         for gname, g in (('g1', GAMMA1), ('g2', GAMMA2)):
             stream = b''.join(g[c] for c in d['stream'])
-            segs, p = [], 0
+            segs, p, rs = [], 0, None
             for n in d['cut']:
-                segs.append(stream[p:p + n])
-                p += n
+                if isinstance(n, dict):
+                    rs = n['readsize']
+                elif n == 'pause':
+                    segs.append(None)
+                else:
+                    segs.append(stream[p:p + n])
+                    p += n
+            _mod_class()
+            import frappy.protocol.interface.tcp as tcpmod
+            saved = tcpmod.MESSAGE_READ_SIZE
+            tcpmod.MESSAGE_READ_SIZE = rs or saved
             w, s1 = run_stream(segs)
+            tcpmod.MESSAGE_READ_SIZE = saved
             print(gname, segs, 'buffers at recv:', s1.bufs, 'replies before recv:', s1.nreplies)
             for e, rw in zip(w.events, w.raw):
                 print('  ', e['ev'], rw)
@@ -1218,13 +1325,19 @@ def replay(chk, rep):
             for e, rw in zip(tr, raw):
                 print('  ', e['ev'], rw)
         print('direct comparison:', x['bad'])
+    elif kind == 'streams':
+        x = _replay_stream((d['stream'], d['seed']))
+        for tr, raw, sg in zip(x['traces'], x['raws'], x['segs']):
+            print(sg)
+            for e, rw in zip(tr, raw):
+                print('  ', e['ev'], str(rw)[:200])
     elif kind == 'fuzz':
         x = _fuzz(d['seed'])
         print('stream', x['stream'].encode('latin-1'), 'segments', x['seg'], 'world', x['world'])
         for e, rw in zip(x['trace'], x['raw']):
             print('  ', e['ev'], rw)
     elif kind == 'tcp':
-        x = _real_tcp(d['seed'])
+        x = _real_tcp(d['seed'], d.get('pause', False))
         for e, rw in zip(x['trace'], x['raw']):
             print('  ', e['ev'], rw)
     elif kind == 'threads':
